@@ -197,6 +197,7 @@ fn key_of(whr: &str, nodes: &[Node]) -> String {
         Some(Agg::Hist { .. }) => "histogram".into(),
         Some(Agg::Range { .. }) => "range".into(),
         Some(Agg::Filter { .. }) => "filter".into(),
+        Some(Agg::Composite { .. }) => "composite".into(),
         None => "result".into(),
     };
     format!("C14:{kind}-differs-from-direct-computation")
@@ -227,6 +228,10 @@ fn judge_real(ctx: &mut Ctx, c: &CaseIn, parts: &[Vec<usize>], out: &Out, specs:
         }
         Out::Panic(msg) => {
             let dup = msg.contains("fetch_block requires docs sorted") && specs.alts[0] != specs.base;
+            if msg.contains("composite/collector.rs") && msg.contains("index out of bounds") && nested_composite(c.nodes, false) {
+                ctx.report.violation("oracle", "C14:composite-sub-aggregation-panics-on-unvisited-parent-bucket", format!("{how}: aggregation panicked: {msg} — a composite below another bucket aggregation is asked for the result of a parent bucket that received no document (SegmentCompositeCollector::add_intermediate_aggregation_result indexes parent_buckets without prepare_max_bucket)"), case_json(c, parts, "final"));
+                return None;
+            }
             ctx.report.violation("oracle", if dup { "C14:histogram-range-doc-count-counts-values" } else { "C14:panic" },
                 format!("{how}: aggregation panicked: {msg}{}", if dup { " — a histogram / range bucket got the same document twice (two values of a multi-valued document in one bucket) and passed it twice to its sub-aggregation" } else { "" }), case_json(c, parts, "final"));
             return None;
@@ -243,30 +248,33 @@ fn judge_real(ctx: &mut Ctx, c: &CaseIn, parts: &[Vec<usize>], out: &Out, specs:
     let mut mt = vec![];
     may_truncate(c.nodes, c.docs, parts, c.q, &mut mt);
     if !mt.is_empty() { ctx.report.count("terms:segment-truncation-possible"); }
-    let mut cx = CmpCtx { no_segments, may_truncate: mt.clone(), skip_subs_at: vec![], notes: vec![] };
-    if let Err((whr, what)) = compare(c.nodes, &crs, srs, &mut cx) {
+    let mut cx = CmpCtx { no_segments, may_truncate: mt.clone(), skip_subs_at: vec![], lenient_empty_composite: false, notes: vec![] };
+    for ti in 0..c.nodes.len() {
+    let (tn, tc) = (&c.nodes[ti..ti + 1], &crs[ti..ti + 1]);
+    if let Err((whr, what)) = compare(tn, tc, &srs[ti..ti + 1], &mut cx) {
         // attribution: does the failure disappear under exactly one of the recorded deviations?
         let mut explained = None;
         if !no_segments {
             for (i, alt) in specs.alts.iter().enumerate() {
-                let mut cx2 = CmpCtx { no_segments, may_truncate: mt.clone(), skip_subs_at: vec![], notes: vec![] };
-                if alt != &specs.base && compare(c.nodes, &crs, alt, &mut cx2).is_ok() { explained = Some(i); break; }
+                let mut cx2 = CmpCtx { no_segments, may_truncate: mt.clone(), skip_subs_at: vec![], lenient_empty_composite: false, notes: vec![] };
+                if alt[ti] != specs.base[ti] && compare(tn, tc, &alt[ti..ti + 1], &mut cx2).is_ok() { explained = Some(i); break; }
             }
         }
-        if explained.is_none() && !no_segments && specs.alts[0] != specs.base {
+        if explained.is_none() && !no_segments && specs.alts[0][ti] != specs.base[ti] {
             // per-value counting whose effect on the sub-aggregations differs by kind (some
             // collectors deduplicate the repeated document, some do not): keys and counts of
             // the affected histogram / range nodes must equal the per-value counts, their
             // sub-results are not compared
             let mut dup = vec![];
-            dup_nodes(c.nodes, &specs.base, &specs.alts[0], &mut dup);
+            dup_nodes(tn, &specs.base[ti..ti + 1], &specs.alts[0][ti..ti + 1], &mut dup);
             for (i, alt) in [(0usize, &specs.alts[0]), (2usize, &specs.alts[2])] {
-                let mut cx3 = CmpCtx { no_segments, may_truncate: mt.clone(), skip_subs_at: dup.clone(), notes: vec![] };
-                if compare(c.nodes, &crs, alt, &mut cx3).is_ok() { explained = Some(i); break; }
+                let mut cx3 = CmpCtx { no_segments, may_truncate: mt.clone(), skip_subs_at: dup.clone(), lenient_empty_composite: composite_below_mdc0_terms(c.nodes, false), notes: vec![] };
+                if compare(tn, tc, &alt[ti..ti + 1], &mut cx3).is_ok() { explained = Some(i); break; }
             }
         }
         let missing_sig = metric_missing_signature(c.nodes, c.docs, parts, &whr);
         match explained {
+            Some(0) if key_of(&whr, c.nodes).contains("composite") => ctx.report.violation("oracle", "C14:composite-counts-repeated-values", format!("{how}: at {whr}: {what} — equals the count per combination of VALUES: a document with a repeated value (or two values in one histogram source bucket) is counted once per repetition"), case_json(c, parts, "final")),
             Some(0) => ctx.report.violation("oracle", "C14:histogram-range-doc-count-counts-values", format!("{how}: at {whr}: {what} — equals the per-value count (a multi-valued document with two values in one bucket is counted twice)"), case_json(c, parts, "final")),
             Some(1) => ctx.report.violation("oracle", "C14:terms-key-order-of-rendered-keys", format!("{how}: at {whr}: {what} — equals the order of the rendered keys (ip / date keys compared as strings, integral f64 keys before fractional ones) instead of the column order"), case_json(c, parts, "final")),
             Some(_) => {
@@ -274,9 +282,11 @@ fn judge_real(ctx: &mut Ctx, c: &CaseIn, parts: &[Vec<usize>], out: &Out, specs:
                 ctx.report.violation("oracle", "C14:terms-key-order-of-rendered-keys", format!("{how}: at {whr}: {what} — explained by per-value counting together with rendered key order"), case_json(c, parts, "final"));
             }
             None if tophits_flush_signature(c.nodes, &whr, c.docs.iter().filter(|d| c.q.matches(d)).count()) => ctx.report.violation("oracle", "C14:top-hits-lost-after-intermediate-flush", format!("{how}: at {whr}: {what} — top_hits below a bucket aggregation over >= 2048 collected documents: the sub-aggregation buffer is flushed in batches and TopHitsSegmentCollector::prepare_max_bucket resizes (shrinks) its bucket vector to the current batch's highest bucket id"), case_json(c, parts, "final")),
+            None if what.contains("composite buckets []") && composite_below_mdc0_terms(c.nodes, false) => ctx.report.violation("oracle", "C14:composite-lost-when-merged-into-empty-from-req", format!("{how}: at {whr}: {what} — the composite sits below a terms aggregation with min_doc_count = 0: a zero-count term of one segment carries `empty_from_req(Composite)` (target_size 0); merging another segment's buckets INTO it trims them to 0"), case_json(c, parts, "final")),
             None if missing_sig => ctx.report.violation("oracle", "C14:metric-missing-cast-to-u64-in-segment-without-column", format!("{how}: at {whr}: {what} — the metric has a negative / fractional `missing` and a segment holds no value of the field (the column is absent there and `missing` is converted as u64)"), case_json(c, parts, "final")),
             None => ctx.report.violation("oracle", &key_of(&whr, c.nodes), format!("{how}: at {whr}: {what}"), case_json(c, parts, "final")),
         }
+    }
     }
     for n in cx.notes { ctx.report.count(&format!("checked:{n}")); }
     Some(crs)
@@ -319,6 +329,10 @@ fn dup_nodes(nodes: &[Node], base: &[SR], pv: &[SR], out: &mut Vec<String>) {
             }
             (SR::Terms { all: ba, .. }, SR::Terms { all: pa, .. }) => for x in ba { if let Some(y) = pa.iter().find(|y| y.0 == x.0) { dup_nodes(&n.subs, &x.2, &y.2, out); } },
             (SR::Filter(_, bs), SR::Filter(_, ps)) => dup_nodes(&n.subs, bs, ps, out),
+            (SR::Comp { all: ba, .. }, SR::Comp { all: pa, .. }) => {
+                if ba.len() != pa.len() || ba.iter().zip(pa).any(|(x, y)| x.0 != y.0 || x.1 != y.1) { out.push(n.name.clone()); }
+                for x in ba { if let Some(y) = pa.iter().find(|y| y.0 == x.0) { dup_nodes(&n.subs, &x.2, &y.2, out); } }
+            }
             _ => {}
         }
     }
@@ -333,6 +347,7 @@ fn no_count_cut(srs: &[SR]) -> bool {
         SR::Terms { all, size, order, subkey, .. } => ((subkey.is_none() && !matches!(order, TOrd::CountDesc | TOrd::CountAsc)) || all.len() <= *size) && all.iter().all(|b| no_count_cut(&b.2)),
         SR::List(bs, _) => bs.iter().all(|b| no_count_cut(&b.2)),
         SR::Filter(_, s) => no_count_cut(s),
+        SR::Comp { all, .. } => all.iter().all(|b| no_count_cut(&b.2)),
         _ => true,
     })
 }
@@ -347,6 +362,16 @@ fn tophits_flush_signature(nodes: &[Node], whr: &str, matching: usize) -> bool {
     let names: Vec<&str> = whr.split('>').filter(|s| s.starts_with('a')).collect();
     let last = names.last().cloned().unwrap_or("");
     names.len() >= 2 && matching >= 2048 && matches!(find(nodes, last).map(|n| &n.agg), Some(Agg::Metric { kind: MK::TopHits, .. }))
+}
+
+/// the request has a composite aggregation below a terms aggregation with `min_doc_count: 0`
+fn composite_below_mdc0_terms(nodes: &[Node], below: bool) -> bool {
+    nodes.iter().any(|n| (below && matches!(n.agg, Agg::Composite { .. })) || composite_below_mdc0_terms(&n.subs, below || matches!(n.agg, Agg::Terms { mdc: Some(0), .. })))
+}
+
+/// the request has a composite aggregation below another bucket aggregation
+fn nested_composite(nodes: &[Node], below_bucket: bool) -> bool {
+    nodes.iter().any(|n| (below_bucket && matches!(n.agg, Agg::Composite { .. })) || nested_composite(&n.subs, below_bucket || !matches!(n.agg, Agg::Metric { .. })))
 }
 
 fn range_absent_column_signature(nodes: &[Node], docs: &[MDoc], parts: &[Vec<usize>]) -> bool {
@@ -436,7 +461,8 @@ pub fn check_request(ctx: &mut Ctx, rng: &mut Rng, corpus: &Corpus, nodes: &[Nod
     if let Some(e) = fruit_err {
         let dup = e.contains("fetch_block requires docs sorted") && specs.alts[0] != specs.base;
         let absent = e.contains("Overlapping ranges") && range_absent_column_signature(nodes, &corpus.docs, sparts);
-        ctx.report.violation("oracle", if dup { "C14:histogram-range-doc-count-counts-values" } else if absent { "C14:metric-missing-cast-to-u64-in-segment-without-column" } else { "C14:valid-request-rejected" }, format!("DistributedAggregationCollector failed: {e}"), case_json(&c, sparts, "distributed"));
+        let comp = e.contains("composite/collector.rs") && e.contains("index out of bounds") && nested_composite(nodes, false);
+        ctx.report.violation("oracle", if comp { "C14:composite-sub-aggregation-panics-on-unvisited-parent-bucket" } else if dup { "C14:histogram-range-doc-count-counts-values" } else if absent { "C14:metric-missing-cast-to-u64-in-segment-without-column" } else { "C14:valid-request-rejected" }, format!("DistributedAggregationCollector failed: {e}"), case_json(&c, sparts, "distributed"));
     } else {
         for round in 0..3 {
             let serialise = round > 0;
@@ -465,9 +491,10 @@ pub fn check_request(ctx: &mut Ctx, rng: &mut Rng, corpus: &Corpus, nodes: &[Nod
         for (i, other) in normed.iter().enumerate() {
             if let Err(e) = same_result(&first, other) {
                 let key = if any_metric_missing_signature(nodes, &corpus.docs, &finals[i + 1].2) || any_metric_missing_signature(nodes, &corpus.docs, &finals[0].2) { "C14:metric-missing-cast-to-u64-in-segment-without-column" }
+                    else if e.contains("composite") && composite_below_mdc0_terms(nodes, false) { "C14:composite-lost-when-merged-into-empty-from-req" }
                     else if e.contains("top_hits") && matching.len() >= 2048 { "C14:top-hits-lost-after-intermediate-flush" }
                     else if specs.alts[0] != specs.base { "C14:histogram-range-doc-count-counts-values" }
-                    else if has_count_ordered_terms(nodes) && e.contains("buckets") && !no_count_cut(&specs.base) { "C14:terms-count-ties-partition-dependent" } else { "C14:result-depends-on-partition" };
+                    else if has_count_ordered_terms(nodes) && (e.contains("buckets") || e.contains("sum_other")) && !no_count_cut(&specs.base) { "C14:terms-count-ties-partition-dependent" } else { "C14:result-depends-on-partition" };
                 ctx.report.violation("oracle", key, format!("same documents, {} vs {}: {e}", finals[0].0, finals[i + 1].0), case_json(&c, &finals[i + 1].2, "partition"));
                 break;
             }
@@ -489,6 +516,7 @@ fn count_kinds(ctx: &mut Ctx, nodes: &[Node]) {
             Agg::Hist { field, date_hist, hard, ext, offset, mdc, .. } => format!("agg:{}:{}{}{}{}{}", if *date_hist { "date_histogram" } else { "histogram" }, field.name(), if hard.is_some() { "+hard" } else { "" }, if ext.is_some() { "+ext" } else { "" }, if offset.is_some() { "+offset" } else { "" }, if mdc.unwrap_or(0) > 0 { "+mdc" } else { "" }),
             Agg::Range { field, .. } => format!("agg:range:{}", field.name()),
             Agg::Filter { field, .. } => format!("agg:filter:{}", field.name()),
+            Agg::Composite { sources, .. } => format!("agg:composite:{}", sources.iter().map(|c| format!("{}{}", c.field.name(), if c.interval.is_some() { "-hist" } else { "" })).collect::<Vec<_>>().join("+")),
         };
         ctx.report.count(&k);
         if n.opt.keyed && matches!(n.agg, Agg::Hist { .. } | Agg::Range { .. }) { ctx.report.count("opt:keyed"); }
@@ -574,6 +602,7 @@ fn count_cr_buckets(crs: &[CR]) -> u64 {
         CR::Terms { buckets, .. } => buckets.iter().map(|b| 1 + count_cr_buckets(&b.2)).sum(),
         CR::List(bs) => bs.iter().map(|b| 1 + count_cr_buckets(&b.2)).sum(),
         CR::Filter(_, s) => count_cr_buckets(s),
+        CR::Comp(bs) => bs.iter().map(|b| 1 + count_cr_buckets(&b.2)).sum(),
         _ => 0,
     }).sum()
 }
